@@ -18,7 +18,9 @@ from fractions import Fraction
 import z3
 
 ROOT = '/verif'
-BUILD = os.path.join(ROOT, '.build')
+sys.path.insert(0, os.path.join(ROOT, 'bin'))
+import nativelib
+BUILD = nativelib.BUILD
 KINDS = ['macro', 'callblock', 'include', 'block', 'macro_include', 'import_macro']
 STACK = 2 * 1024 * 1024
 BASE = 96 * 1024      # frames below the first template level (thread start, render entry), measured < 64 KiB
@@ -32,7 +34,7 @@ def log(*a):
 def build(profile):
     env = dict(os.environ, CARGO_NET_OFFLINE='true', CARGO_TARGET_DIR=os.path.join(BUILD, 'native'))
     cmd = ['cargo', 'build', '--offline', '--bin', 'stack'] + (['--release'] if profile == 'release' else [])
-    p = subprocess.run(cmd, cwd=os.path.join(ROOT, 'native'), env=env, stdout=subprocess.PIPE, stderr=subprocess.STDOUT, text=True)
+    p = subprocess.run(cmd, cwd=nativelib.native_dir(), env=env, stdout=subprocess.PIPE, stderr=subprocess.STDOUT, text=True)
     return None if p.returncode == 0 else p.stdout[-2000:]
 
 
@@ -108,7 +110,7 @@ def run_c11(prop, tier, seed):
     kp = os.path.join(ROOT, 'known_findings.json')
     if os.path.exists(kp):
         known = {f['id']: f for f in json.load(open(kp)).get('findings', [])}
-    os.makedirs(os.path.join(ROOT, 'evidence', 'replay'), exist_ok=True)
+    nativelib.replay_dir()
     for qname, res in results.items():
         profile = res['profile']
         if res['verdict'] == 'sat':
@@ -117,7 +119,7 @@ def run_c11(prop, tier, seed):
                 if kf:
                     ev['known_hits'].append((dict(replay=None), kf))
                     continue
-                rp = os.path.join(ROOT, 'evidence', 'replay', '%s-S-%s.json' % (prop, qname))
+                rp = os.path.join(nativelib.replay_dir(), '%s-S-%s.json' % (prop, qname))
                 json.dump(dict(property=prop, engine='S', profile=profile, result=res,
                                costs={k: {kk: vv for kk, vv in v.items() if kk != 'c'} for (pf, k), v in table.items() if pf == profile},
                                how='%s run %s 500 %d   (dies with a stack overflow)' % (tool(profile), res['replay']['kind'], STACK)), open(rp, 'w'), indent=1)
